@@ -34,7 +34,7 @@ impl SwiftField for Field36 {
         }
 
         // Parse rate (up to 12 digits including decimal)
-        if input.len() > 12 {
+        if super::swift_utils::amount_text_len(input) > 12 {
             return Err(ParseError::InvalidFormat {
                 message: format!(
                     "Field 36 must not exceed 12 characters, found {}",
